@@ -10,6 +10,8 @@ From RecordUpdate Require Import RecordSet.
 From RC Require Import Hdr Machine RunInd.
 From RC Require BufBase BufStep Buf.
 From RC Require Import Inv InvP SafeHelpers SafePrims SafeCalls SafeMain SafeColl SafeFinal.
+From RC Require SafeGlue SafeFinalPropsA SafeFinalProps.
+From RC Require Import LifeInv.
 Import ListNotations RecordSetNotations.
 Local Open Scope N_scope.
 
@@ -40,3 +42,199 @@ Section C11u.
                       (fl_t (cur_flags K m)) :: log m.
   Proof. exact (Buf.sobs_top K P fuel cmds n prog_buf_clean). Qed.
 End C11u.
+
+(** ** C03 item 1: no double drop / double free / drop of an uninitialised value / use after
+    free / use after drop is ever detected *)
+Theorem no_double K P fuel cmds :
+  (k_clean K = true -> k_weak K = true) -> wf_prog P = true ->
+  let m := fold_left (fun m c => exec_top K P fuel c m) cmds (init K) in
+  clean m = true ->
+  forall o, ~ In (EBad DoubleDrop o) (log m) /\ ~ In (EBad DoubleFree o) (log m) /\
+            ~ In (EBad UninitDrop o) (log m) /\ ~ In (EBad UseAfterFree o) (log m) /\
+            ~ In (EBad UseAfterDrop o) (log m).
+Proof.
+  intros Hconf Hwf m Hcl o. pose proof (safe_programs_no_bad K P fuel cmds Hconf Hwf Hcl) as Hnb. fold m in Hnb.
+  unfold no_bad in Hnb. rewrite forallb_forall in Hnb.
+  repeat split; intros Hin; specialize (Hnb _ Hin); discriminate.
+Qed.
+
+(** ** C05 item 7: finalizers only run on garbage *)
+Section C05.
+  Context (K : conf) (P : prog).
+
+  (** reference-count path: when [Cc::drop] is about to run the finalizer (count 1, not linked in
+      a collector list), no slot, bag entry, field or cleaner handle holds the object, and no
+      other handle to it is in flight *)
+  Theorem garbage_rc b E o m x :
+    Pre K (PreC K) b E (KDropCc o) m -> get m o = Some x -> h_rc (o_hdr x) = 1 ->
+    refs m o = 0%nat /\ cnt_id o E = 0%nat /\ o_box x = BAlloc.
+  Proof.
+    intros Hpre Hx Hrc. rewrite Pre_nc in Hpre by reflexivity. destruct Hpre as (_ & HI & _). cbn [own_of app] in HI.
+    destruct (sv_E _ _ _ _ _ HI o) as (x' & Hx' & Hb); [left|]. assert (x' = x) by congruence. subst x'.
+    destruct (okN_alloc K _ _ _ _ _ (sv_obj _ _ _ _ _ HI o x Hx) Hb) as (O1 & _).
+    rewrite cnt_id_cons_eq, Hrc in O1. repeat split; try lia. exact Hb.
+  Qed.
+
+  (** collector path: the finalization pass starts from a closed set *)
+  Theorem garbage_gc b E L old_f m :
+    PreC K b E (KFinalizeList L L false old_f) m ->
+    NoDup L /\ (forall g, g ∈ L -> Member m g) /\ ClosedL L E m.
+  Proof. cbn. intros (_ & Hnd & _ & Hmem & Hcl). split; [exact Hnd|]. split; [exact Hmem | apply Hcl; reflexivity]. Qed.
+
+  (** while the pass runs (at every iteration) every member is still live, allocated, linked and
+      outside the dying set *)
+  Theorem members_live_during_pass b E L rest any old_f m :
+    PreC K b E (KFinalizeList L rest any old_f) m ->
+    forall g, g ∈ L -> exists x, get m g = Some x /\ o_box x = BAlloc /\ o_vst x = VLive /\ inD m g = false /\
+                                 h_mark (o_hdr x) = IL.
+  Proof. cbn. intros (_ & _ & _ & Hmem & _) g Hg. exact (Hmem g Hg). Qed.
+
+  (** ** C05 item 8: all finalizers of a pass return before its first destructor: an iteration
+      of the finalization pass that still has a member to visit does not call the drop pass *)
+  Definition is_drop_list (k : call) : bool := match k with KDropList _ _ _ => true | _ => false end.
+
+  Theorem fin_then_drop_order rec rec' L g rest any old_f m :
+    (forall k m', is_drop_list k = false -> rec' k m' = rec k m') ->
+    step_finalize_list K P rec' L (g :: rest) any old_f m = step_finalize_list K P rec L (g :: rest) any old_f m.
+  Proof.
+    intros Hag. unfold step_finalize_list.
+    repeat first
+      [ match goal with |- context [rec' ?k ?m0] => rewrite (Hag k m0) by reflexivity end
+      | match goal with
+        | |- context [match ?x with _ => _ end] =>
+          lazymatch x with
+          | context [match _ with _ => _ end] => fail
+          | _ => destruct x eqn:?
+          end
+        end ]; reflexivity.
+  Qed.
+  (** ... and the drop pass is entered from the empty remainder only when no finalizer ran *)
+  Theorem drop_pass_entry rec L any old_f m :
+    step_finalize_list K P rec L [] any old_f m =
+    if negb any
+    then rec (KDropList L L (st_dropping m)) (m <| st_finalizing := old_f |> <| st_dropping := true |> <| dead ::= app L |>)
+    else ((fold_left (fun m g => uhdr g (fun h => set_mark PC (reset_tc h)) m) L (m <| st_finalizing := old_f |>))
+            <| pc ::= fun old => L ++ old |> <| pc_size ::= fun s => N.of_nat (length L) + s |>, ONormal).
+  Proof. reflexivity. Qed.
+
+  (** ** C05 item 9: objects created while a finalizer runs are born finalized *)
+  Theorem box_alloc_in_finalizer o m x :
+    get m o = Some x -> k_fin K = true -> st_finalizing m = true ->
+    exists x', get (box_alloc K o m) o = Some x' /\ h_fin (o_hdr x') = true /\ o_box x' = BAlloc.
+  Proof.
+    intros Hx Hk Hf. unfold box_alloc. rewrite Hx. destruct (box_layout K x) as [sz al]. rewrite Hk, Hf.
+    eexists. split.
+    - match goal with |- get (emit ?e (upd o ?f ?mm)) o = _ => change (get (emit e (upd o f mm)) o) with (get (upd o f mm) o) end.
+      apply SafeFinalPropsA.getA_upd_eq. exact Hx.
+    - split; reflexivity.
+  Qed.
+  Theorem box_alloc_fin_flag o m x :
+    get m o = Some x ->
+    exists x', get (box_alloc K o m) o = Some x' /\ h_fin (o_hdr x') = k_fin K && st_finalizing m.
+  Proof.
+    intros Hx. unfold box_alloc. rewrite Hx. destruct (box_layout K x) as [sz al].
+    eexists. split.
+    - match goal with |- get (emit ?e (upd o ?f ?mm)) o = _ => change (get (emit e (upd o f mm)) o) with (get (upd o f mm) o) end.
+      apply SafeFinalPropsA.getA_upd_eq. exact Hx.
+    - reflexivity.
+  Qed.
+End C05.
+
+(** ** C14 item 10: a value under construction cannot be upgraded *)
+Section C14.
+  Context (K : conf).
+
+  Theorem dead_inside b E W m o x :
+    SInv K b E W m -> get m o = Some x -> o_vst x = VUninit -> o_box x = BAlloc ->
+    h_rc (o_hdr x) = 0 /\ is_dropped (o_hdr x) = false.
+  Proof. intros HI Hx Hv Hb. exact (ox_uninit _ _ _ _ (sv_objx _ _ _ _ _ HI o x Hx) Hb Hv). Qed.
+
+  Theorem dead_inside_count b E W m o x :
+    SInv K b E W m -> k_weak K = true -> (0 < wrefs m o + cnt_wr o W)%nat ->
+    get m o = Some x -> o_vst x = VUninit -> weak_strong_count (WTo o) m = (m, 0).
+  Proof.
+    intros HI Hk Hw Hx Hv. apply (SafeFinalProps.dead_never_upgrades K b E W m o x HI Hk Hw Hx). auto 6.
+  Qed.
+
+  Theorem dead_inside_upgrade rec b E m self w dst rw rd o x :
+    SInv K b E [] m -> k_weak K = true ->
+    wresolve self w m = (m, Some rw) -> resolve self dst m = (m, Some rd) -> read_wloc rw m = Some (WTo o) ->
+    (0 < wrefs m o)%nat -> get m o = Some x -> o_vst x = VUninit ->
+    cmd_upgrade K rec self w dst m = ok m RNone.
+  Proof.
+    intros HI Hk H1 H2 Hr Hw Hx Hv. apply (SafeFinalProps.dead_upgrade_none K rec b E m self w dst rw rd o x); auto 6.
+  Qed.
+
+  (** ** C14 item 12b: the unwind guard of [new_cyclic] *)
+  Definition cyc_guard (o : id) (m : machine) : machine :=
+    weak_drop (WTo o) (dealloc K o (drop_metadata K o m) <| wparam ::= tail |>).
+
+  Lemma weak_drop_box w m o y : get m o = Some y ->
+    exists y', get (weak_drop w m) o = Some y' /\ o_box y' = o_box y /\ o_vst y' = o_vst y.
+  Proof.
+    intros Hy. destruct (SafeGlue.weak_drop_keep w m o y Hy) as (y' & Hy' & HS). exists y'. split; [exact Hy'|].
+    destruct HS as (_ & Hv & Hb & _). split; [exact Hb | exact Hv].
+  Qed.
+
+  Lemma log_ext_weak_drop w m e : In e (log m) -> In e (log (weak_drop w m)).
+  Proof.
+    intros Hin. destruct (q_weak_drop m w m (Quiet_refl m)) as (_ & _ & (k & -> & _) & _).
+    apply in_or_app. right. exact Hin.
+  Qed.
+
+  (** the guard frees the box (without touching the value state) and logs the [EFree] *)
+  Theorem cyc_guard_frees o m x : get m o = Some x ->
+    exists x', get (cyc_guard o m) o = Some x' /\ o_box x' = BFreed /\ o_vst x' = o_vst x /\
+      In (EFree o (box_layout K x).1 (box_layout K x).2) (log (cyc_guard o m)).
+  Proof.
+    intros Hx. unfold cyc_guard.
+    destruct (SafeFinalPropsA.drop_metadata_get K m o x Hx) as (y1 & Hy1 & Hv1 & Hb1 & Hm1).
+    destruct (SafeFinalPropsA.dealloc_get K (drop_metadata K o m) o y1 Hy1) as [Hg Hl].
+    set (X := dealloc K o (drop_metadata K o m)) in *.
+    assert (Hg2 : get (X <| wparam ::= tail |>) o = Some (y1 <| o_box := BFreed |>)) by exact Hg.
+    destruct (weak_drop_box (WTo o) _ o _ Hg2) as (y' & Hy' & Hb' & Hv').
+    exists y'. split; [exact Hy'|]. split; [rewrite Hb'; reflexivity|]. split; [rewrite Hv'; exact Hv1|].
+    apply log_ext_weak_drop. change (log (X <| wparam ::= tail |>)) with (log X).
+    assert (Hbl : box_layout K y1 = box_layout K x) by (unfold box_layout; rewrite Hm1; reflexivity).
+    rewrite <- Hbl. exact Hl.
+  Qed.
+
+  (** every way [new_cyclic] can unwind: the trigger panicked (nothing was allocated), the guard
+      ran (closure or self-weak clone panicked), or the final store panicked (the value is live) *)
+  Theorem cyc_panic_cases P rec self dst cls script sw m :
+    (cmd_new_cyclic K P rec self dst cls script sw m).2 = OPanic ->
+    let o := length (heap (resolve self dst m).1) in
+    (exists mX, (cmd_new_cyclic K P rec self dst cls script sw m).1 = cyc_guard o mX) \/
+    (exists mX, rec KTrigger mX = ((cmd_new_cyclic K P rec self dst cls script sw m).1, OPanic)) \/
+    (exists r mX, rec (KStore r o) mX = ((cmd_new_cyclic K P rec self dst cls script sw m).1, OPanic)).
+  Proof.
+    unfold cmd_new_cyclic, ok, cyc_guard, new_node. cbv zeta.
+    destruct (negb (k_weak K)); [discriminate|].
+    destruct (resolve self dst m) as [m1 r]. cbn [fst snd]. destruct r as [r|]; [|discriminate].
+    destruct (k_auto K).
+    - destruct (rec KTrigger _) as [m4 t] eqn:Et. destruct t; cbn [fst snd]; try discriminate.
+      + destruct (tick KClosure _) as [m11 boom]. destruct boom.
+        * unfold raise. destruct (panicking m11); cbn [fst snd]; [discriminate|]. intros _. left. eexists. reflexivity.
+        * destruct (rec (KScript None _) m11) as [m12 r'] eqn:Es. destruct r'; cbn [fst snd]; try discriminate.
+          -- destruct (sw && _).
+             ++ destruct (weak_clone (WTo _) m12) as [mc|].
+                ** destruct (rec (KStore r _) _) as [m15 r3] eqn:Est. destruct r3; cbn [fst snd]; try discriminate.
+                   intros _. right; right. eexists _, _. exact Est.
+                ** unfold raise. destruct (panicking m12); cbn [fst snd]; [discriminate|]. intros _. left. eexists. reflexivity.
+             ++ destruct (rec (KStore r _) _) as [m15 r3] eqn:Est. destruct r3; cbn [fst snd]; try discriminate.
+                intros _. right; right. eexists _, _. exact Est.
+          -- intros _. left. eexists. reflexivity.
+      + intros _. right; left. eexists. exact Et.
+    - destruct (tick KClosure _) as [m11 boom]. destruct boom.
+      + unfold raise. destruct (panicking m11); cbn [fst snd]; [discriminate|]. intros _. left. eexists. reflexivity.
+      + destruct (rec (KScript None _) m11) as [m12 r'] eqn:Es. destruct r'; cbn [fst snd]; try discriminate.
+        * destruct (sw && _).
+          -- destruct (weak_clone (WTo _) m12) as [mc|].
+             ++ destruct (rec (KStore r _) _) as [m15 r3] eqn:Est. destruct r3; cbn [fst snd]; try discriminate.
+                intros _. right; right. eexists _, _. exact Est.
+             ++ unfold raise. destruct (panicking m12); cbn [fst snd]; [discriminate|]. intros _. left. eexists. reflexivity.
+          -- destruct (rec (KStore r _) _) as [m15 r3] eqn:Est. destruct r3; cbn [fst snd]; try discriminate.
+             intros _. right; right. eexists _, _. exact Est.
+        * intros _. left. eexists. reflexivity.
+  Qed.
+End C14.
